@@ -59,6 +59,7 @@ type Cfg struct {
 	Filter int // controller level filter (hx.MkFilter index)
 	// SlowOn: the controller's filter takes one (virtual) second to decide about objects of this name with a version
 	// above 1 (a slow user predicate): the controller is legitimately busy while watch frames keep arriving
+	SlowLogPrefix string // a library stage made slow: the Debugf line starting with this takes 2 ms (hx.SlowLog)
 	SlowOn        string
 	SlowFor       time.Duration // how long the slow filter takes for that object (0 = 1s)
 	CancelOnFrame int           // the builder's context is cancelled as a watch stream has handed over its n-th frame (1-based)
@@ -223,7 +224,11 @@ func (in *Inst) Run() {
 			}
 		}
 	}
-	b := kcache.NewBuilder().Context(ctx).Log(hx.Log).Filter(in.controllerFilter()).Client(in.Srv)
+	var log logutil.Log = hx.Log
+	if c.SlowLogPrefix != "" {
+		log = hx.SlowLog{Prefix: c.SlowLogPrefix, D: 2 * time.Millisecond}
+	}
+	b := kcache.NewBuilder().Context(ctx).Log(log).Filter(in.controllerFilter()).Client(in.Srv)
 	b.Lister().RefreshPeriod(c.Period)
 	ctrl, err := b.Create()
 	in.O.CreateErr = err
